@@ -15,6 +15,7 @@ PATTERNS = [
     r"celeritas::detail::LocateAliveExecutor::operator\(\)",
     r"celeritas::(Transformation|Translation)::(Transformation|Translation|data)$",
     r"celeritas::detail::import_transform$",
+    r"celeritas::detail::QuadricPlaneConverter::operator\(\)$",
 ]
 
 
